@@ -121,8 +121,16 @@ Definition parse_headers (le : lineend) (h : hdrs) (b : bytes) : pres hdrs :=
        end.
 
 (* ---- Headers.__getitem__ : RFC 2047 decoding only when the value asks for it ---- *)
+(* re.search(b'==\\?(?!=)', value): an occurrence of "==?" that is not followed by "=" *)
+Fixpoint eqeqq_not_eq (v : bytes) : bool :=
+  match v with
+  | a :: ((b :: c :: r) as t) =>
+      (beq a x3d && beq b x3d && beq c x3f && negb (match r with d :: _ => beq d x3d | [] => false end))
+      || eqeqq_not_eq t
+  | _ => false
+  end.
 Definition triggers_2047 (v : bytes) : bool :=
-  contains (X "3d3f") v && negb (contains (X "223d3f") v) && negb (contains (X "3d3d3f") v).
+  contains (X "3d3f") v && negb (contains (X "223d3f") v) && negb (eqeqq_not_eq v).
 
 Inductive getres := GText (truthy is_chunked : bool) (cl : option Z) | GInvalid | GEscape | GMiss.
 Definition hgetitem (v : bytes) : getres :=
